@@ -150,6 +150,8 @@ def dump_ann(n):
 
 
 def shard_fn(shard, nshards, seed, tier, exe, ntrees):
+    import sys
+    sys.setrecursionlimit(50000)
     rng = random.Random("%d/%d/c12" % (seed, shard))
     sh = core.Shard()
     cases, meta = [], {}
@@ -178,6 +180,11 @@ def shard_fn(shard, nshards, seed, tier, exe, ntrees):
             toks = gen_tree(rng)
             while toks == ["n"]:
                 toks = gen_tree(rng)  # a NULL json_object* is not "an instance/tree" for the pointer API
+            if rng.random() < 0.03:
+                # the same tree 30..150 containers further down: every pointer into it runs through that many more reference tokens (a pointer is as long as the tree is deep)
+                for _ in range(rng.choice([30, 31, 32, 33, 34, 40, 64, 100, 150])):
+                    toks = (["["] + toks + ["]"]) if rng.random() < 0.5 else (["{", "k" + b"w".hex()] + toks + ["}"])
+                sh.count("trees.wrapped_in_30_to_150_more_levels")
             ptrs = pointers_for(rng, toks)
             # set targets
             sets = []
